@@ -117,7 +117,7 @@ def run(ctx):
                               key=f"write {t.value.id}.{t.attr}", node=n, rel=u.rel)
 
     # R11.3 module import ---------------------------------------------------------------------------------------------------
-    ctx.rule("R11.3", "module_import: manager lookup before file lookup; module marked loaded only after success; relative levels resolve like importlib", floor=6)
+    ctx.rule("R11.3", "module_import: manager lookup before file lookup; module marked loaded only after success; relative levels resolve like importlib; a module loaded under any candidate name is reused", floor=30)
     uid = "global_ctx.py::GlobalContext.module_import"
     f = program.func(uid)
     pol = FlowPolicy(program, events=["self.manager.get", "Function.hass.async_add_executor_job", "self.manager.load_file", "self.imports.add", "global_ctx.stop"],
@@ -183,6 +183,70 @@ def run(ctx):
                           f"the same file would be loaded as two module instances", key=f"relative level {level} {mod} from {ctx_name}", node=f, rel="global_ctx.py",
                           sample={"resolved": repr(got)})
 
+    for case, got in import_reuse_cases(program):
+        ctx.check(got == "ok", "R11.3", uid, f"reuse: {case}", msg=f"module_import: {case}: {got}: the same file would exist as two module instances",
+                  key=f"reuse {case}", node=f, rel="global_ctx.py")
+
+    # R11.6 reload never leaves two instances of one module alive ----------------------------------------------------------
+    ctx.rule("R11.6", "reload: every context that imports (directly or through other modules) a module that is re-loaded is discarded too, so no importer keeps the old instance", floor=6)
+    from .c10 import LS, _model_run, scenarios
+    for label, ex, fl, arg, exp_del, exp_load in scenarios():
+        if not any(e["imports"] for e in ex.values()):
+            continue
+        res = _model_run(program, ex, fl, arg)
+        stale = None
+        for r in res:
+            if r[0] != "return":
+                stale = f"load_scripts leaves with {r[0]}"
+                continue
+            gone = set(r[1]) | (set(r[2]) & set(ex))
+            # importer closure of the discarded modules
+            for name, e in ex.items():
+                if name in gone:
+                    continue
+                seen, todo = set(), list(e["imports"])
+                while todo:
+                    m = todo.pop()
+                    if m in seen:
+                        continue
+                    seen.add(m)
+                    todo += list(ex.get(m, {"imports": ()})["imports"])
+                hit = sorted(m for m in seen if m in gone)
+                if hit:
+                    stale = f"{name} stays loaded although it imports {hit}, which {'is' if len(hit) == 1 else 'are'} discarded: it keeps the old module object while later importers get a new one"
+        ctx.check(bool(res) and stale is None, "R11.6", LS, f"model: {label}", msg=f"reload model '{label}': {stale or 'no result'}", key=f"stale importer {label}",
+                  node=program.func(LS), rel="__init__.py")
+
+    # R11.7 pyscript.set_global_ctx switches all of the evaluator's global state together -------------------------------------------
+    ctx.rule("R11.7", "set_global_ctx: context, global table and (at top level) the current scope switch together; inside a function the local scope is kept", floor=4)
+    sg = "eval.py::AstEval.set_global_ctx"
+    g_old, g_new, loc = DictV([(Const("old_global"), Const(1))]), DictV([(Const("new_global"), Const(2))]), DictV([(Const("local"), Const(3))])
+    for where, cur, stack in (("top level", g_old, []), ("top level, scope stack in use", g_old, [g_old]), ("inside a function", loc, [g_old]),
+                              ("inside a nested function", loc, [g_old, DictV([(Const("outer"), Const(4))])])):
+        pol = FlowPolicy(program, may_raise_all=False, cancel=False, inline={"GlobalContext.get_global_sym_table"})
+        heap = {"self.global_ctx": ObjV("gold", "GlobalContext"), "self.global_sym_table": g_old, "self.sym_table": cur, "self.sym_table_stack": ListV(tuple(stack), "list"),
+                "gnew.global_sym_table": g_new, "gold.global_sym_table": g_old}
+        out = run_flow(program, sg, pol, args={"self": ObjV("self", "AstEval"), "global_ctx": ObjV("gnew", "GlobalContext")}, heap=heap)
+        bad = None
+        ex = exits(out)
+        for kind, c, desc in ex:
+            h = c.heap
+            want_cur = g_new if where.startswith("top level") else loc
+            want_stack = ([g_new] + stack[1:]) if stack else []
+            st = h.get("self.sym_table_stack")
+            if kind != "return":
+                bad = f"leaves with {desc}"
+            elif h.get("self.global_ctx") != ObjV("gnew", "GlobalContext"):
+                bad = "the evaluator's global context is not the new one"
+            elif h.get("self.global_sym_table") != g_new:
+                bad = f"global names resolve in {h.get('self.global_sym_table')!r} instead of the new context's table"
+            elif h.get("self.sym_table") != want_cur:
+                bad = f"the current scope is {h.get('self.sym_table')!r}, expected {want_cur!r}: names are read from / bound in the wrong context"
+            elif not isinstance(st, ListV) or list(st.items) != want_stack:
+                bad = f"scope stack is {st!r}, expected {want_stack!r}"
+        ctx.check(bool(ex) and bad is None, "R11.7", sg, f"set_global_ctx {where}", msg=f"set_global_ctx called {where}: {bad or 'no exit'}", key=f"set_global_ctx {where}",
+                  node=program.func(sg), rel="eval.py")
+
     # R11.4 imports bind into the current scope only --------------------------------------------------------------------
     ctx.rule("R11.4", "import statements bind names only through the current scope (closure cell / global declaration aware)", floor=2)
     for h in ("ast_import", "ast_importfrom"):
@@ -227,21 +291,68 @@ def run(ctx):
     )
 
 
-def _resolve(program, ctx_name, relpath, module_name, level, file_path=None):
+REUSE_SCEN = [
+    # (importer context, rel_import_path, file path, module name, level, context names the module may already be loaded under:
+    #  documented search order - an app looks in apps/ then modules/, everything else in modules/; relative names as importlib resolves them)
+    ("apps.app1", "apps/app1/__init__", "/cfg/pyscript/apps/app1/__init__.py", "shared", 0, ["apps.shared", "modules.shared"]),
+    ("apps.app1.util", "apps/app1", "/cfg/pyscript/apps/app1/util.py", "shared", 0, ["apps.shared", "modules.shared"]),
+    ("apps.app1", "apps/app1/__init__", "/cfg/pyscript/apps/app1/__init__.py", "pkg.leaf", 0, ["apps.pkg.leaf", "modules.pkg.leaf"]),
+    ("modules.pkg", "modules/pkg", "/cfg/pyscript/modules/pkg/__init__.py", "shared", 0, ["modules.shared"]),
+    ("scripts.s1", None, "/cfg/pyscript/scripts/s1.py", "shared", 0, ["modules.shared"]),
+    ("apps.app1", "apps/app1/__init__", "/cfg/pyscript/apps/app1/__init__.py", "sib", 1, ["apps.app1.sib"]),
+    ("modules.pkg.helper", "modules/pkg", "/cfg/pyscript/modules/pkg/helper.py", "sib", 1, ["modules.pkg.sib"]),
+]
+
+
+def import_reuse_cases(program):
+    """module_import on finite models: the module is already loaded under exactly one of the candidate context names
+    (optionally an earlier candidate names a context that exists but is not a loaded module).  Expected: that module is
+    returned, the import edge recorded, nothing is looked up on disk or loaded again."""
+    res = []
+    for ctx_name, relpath, file_path, mod, level, cands in REUSE_SCEN:
+        for loaded in cands:
+            for shadow in [None] + [c for c in cands if c != loaded]:
+                got = _resolve(program, ctx_name, relpath, mod, level, file_path, loaded=loaded, shadow=shadow)
+                res.append((f"`import {'.' * level}{mod}` in {ctx_name}: loaded as {loaded}" + (f", {shadow} exists without module" if shadow else ""), got))
+    return res
+
+
+def _resolve(program, ctx_name, relpath, module_name, level, file_path=None, loaded=None, shadow=None):
     """Concrete abstract evaluation of module_import's candidate context names for a relative import."""
     uid = "global_ctx.py::GlobalContext.module_import"
     looked = []
 
     def mget(interp, node, args, kwargs, cfg, out):
-        looked.append(args[0].v if args and isinstance(args[0], Const) else repr(args[0] if args else None))
+        name = args[0].v if args and isinstance(args[0], Const) else repr(args[0] if args else None)
+        looked.append(name)
+        if loaded is not None and name == loaded:
+            return [(cfg, ObjV("ctxL", "GlobalContext"))]
+        if shadow is not None and name == shadow:
+            return [(cfg, ObjV("ctxS", "GlobalContext"))]
         return [(cfg, Const(None))]
 
-    pol = FlowPolicy(program, may_raise_all=False, cancel=False,
+    disk = []
+
+    pol = FlowPolicy(program, may_raise_all=False, cancel=False, inline={"GlobalContext.get_name"},
                      summaries={"self.manager.get": mget, "Function.hass.config.path": lambda i, n, a, k, c, o: [(c, Const("/cfg/pyscript"))],
-                                "Function.hass.async_add_executor_job": lambda i, n, a, k, c, o: [(c, Const(None))]})
+                                "Function.hass.async_add_executor_job": lambda i, n, a, k, c, o: (disk.append(1), [(c, Const(None))])[1]})
     heap = {"self.rel_import_path": Const(relpath), "self.name": Const(ctx_name), "self.manager": Sym(("mgr",)), "self.imports": ListV((), "set"),
-            "self.auto_start": Const(False), "self.file_path": Const(file_path)}
+            "self.auto_start": Const(False), "self.file_path": Const(file_path),
+            "ctxL.module": ObjV("modL", "ModuleType"), "ctxL.name": Const(loaded), "ctxS.module": Const(None), "ctxS.name": Const(shadow)}
     out = run_flow(program, uid, pol, args={"self": ObjV("self", "GlobalContext"), "module_name": Const(module_name), "import_level": Const(level)}, heap=heap)
+    if loaded is not None:
+        rets = out.get("return")
+        if out.get("raise") or not rets:
+            return "raises or does not return"
+        for c in rets:
+            if c.env.get("$ret") != ObjV("modL", "ModuleType"):
+                return f"returns {c.env.get('$ret')!r} instead of the loaded module" + (" after looking on disk" if disk else "")
+            imp = c.heap.get("self.imports")
+            if not (isinstance(imp, ListV) and Const(loaded) in imp.items):
+                return f"import edge to {loaded} not recorded (imports={imp!r})"
+        if disk:
+            return "looks on disk although the module is loaded"
+        return "ok"
     if out.get("raise") and not out.get("return"):
         excs = {getattr(c.env.get("$exc"), "cls", "?") for c in out.get("raise")}
         return "ImportError" if excs == {"ImportError"} else f"raise {sorted(excs)}"
